@@ -22,6 +22,15 @@ class AnalysisError(Exception):
     pass
 
 
+def is_dense_cond(node, cond_value=None):
+    """the condition depends on the stepper's own dense_output flag (syntactically, or through a local flag)"""
+    from poly import reaches
+    c = node["cond"]
+    if tast.contains(c, lambda x: x.get("k") == "Field" and (x.get("fdef") or "").endswith("::dense_output")):
+        return True
+    return isinstance(cond_value, Poly) and reaches(cond_value, lambda a: a == "self.dense_output")
+
+
 class StepHooks(Hooks):
     def __init__(self, fn_body, flag="Continue", init_flag="Continue", solout_present=True, accept="then"):
         self.accept = accept
@@ -73,7 +82,7 @@ class StepHooks(Hooks):
         if node is self.accept_if:
             return self.accept
         c = node["cond"]
-        if tast.contains(c, lambda x: x.get("k") == "Field" and (x.get("fdef") or "").endswith("::dense_output")):
+        if is_dense_cond(node, cond):
             if self.dense == "else" and tast.contains(c, lambda x: x.get("k") == "Binary" and x["op"] == "Or"):
                 return None   # `dense_output || event`: event may still be true
             return self.dense   # None = join both branches
